@@ -114,6 +114,11 @@ def check(repo, res, tier):
     nb = BX.check_builders(repo, res, ["get_StateChangeMatrix", "get_EventRateVector", "get_ode_eqn", "get_pureOdeVector",
                                        "get_BirthDeathVector", "get_TransitionMatrix", "get_ReactantMatrix"])
     res.floor("builder interpretations", nb, 60)
+    # the event list the builders read: every process entered through a legacy list becomes an event with the same rate, type, states and magnitude
+    res.rule("R-EVENTLIST", "a process handed to add_transition / add_birth_death / add_event is stored as one event carrying its rate and a member with "
+             "its type, origin, destination and magnitude (what the builders then read)")
+    from . import C12 as _C12
+    _C12._check_routes(repo, res, rule="R-EVENTLIST")
 
     # ------------------------------------------------------------- S4 R-ARGORDER
     _check_argorder(repo, res, cls)
